@@ -683,3 +683,254 @@ pub fn runes_trace(seed: u64, worlds: usize, ops: usize, out: &str) -> Result<()
   }
   crate::write_trace(out, &all)
 }
+
+// ------------------------------------------------------------------------------------------------
+// C24 driver: PSBTs a counterparty could present, run through the real `ord wallet offer accept`.
+
+use base64::Engine as _;
+
+struct Pool {
+  /// class name -> (outpoint, value, wallet-owned, inscription labels, has runes)
+  outs: Vec<(String, OutPoint, u64, bool, Vec<String>, bool)>,
+  ids: BTreeMap<String, ord::InscriptionId>,
+}
+
+impl Ctx {
+  /// two inscriptions revealed onto the same wallet output
+  fn inscribe_two(&mut self, sats: u64) -> Result<OutPoint> {
+    let (a, va) = self.take_cardinal(BTC)?;
+    let mut b = script::Builder::new();
+    for body in [b"one".to_vec(), b"two".to_vec()] {
+      let insc = ord::Inscription { body: Some(body), content_type: Some(b"text/plain".to_vec()), ..Default::default() };
+      b = insc.append_reveal_script_to_builder(b);
+    }
+    let mut wit = Witness::new();
+    wit.push(b.into_script().as_bytes());
+    wit.push(crate::node::control_block());
+    let dest = self.recv_addr();
+    let change = self.recv_addr();
+    let txid = self.raw(vec![(a, wit)], vec![self.pay(&dest, sats), self.pay(&change, va.to_sat() - sats - 2000)]);
+    Ok(OutPoint { txid, vout: 0 })
+  }
+
+  fn offer_pool(&mut self) -> Result<Pool> {
+    self.w.mine(30)?;
+    let premine = 60u128;
+    let premines = self.etch(1, premine)?;
+    let wx = self.inscribe(20_000)?;
+    let wy = self.inscribe(30_000)?;
+    let wxy = self.inscribe_two(40_000)?;
+    let wxr_src = self.inscribe(53 * BTC)?;
+    // foreign cardinals
+    let (c, v) = self.take_cardinal(BTC)?;
+    let f: Vec<Address> = self.foreign[0..3].to_vec();
+    let change = self.recv_addr();
+    let ftx = self.raw(
+      vec![(c, Witness::new())],
+      vec![self.pay(&f[0], 2 * BTC), self.pay(&f[1], BTC), self.pay(&f[2], BTC / 2), self.pay(&change, v.to_sat() - 3 * BTC - BTC / 2 - 2000)],
+    );
+    self.w.mine(1)?;
+    self.distribute(premines, premine, 2, Some(wxr_src))?;
+    self.w.sync()?;
+    // classify every wallet output the index knows something about
+    let mut pool = Pool { outs: Vec::new(), ids: BTreeMap::new() };
+    let utxos = self.wallet_utxos();
+    let mut n_insc = 0;
+    let mut label_of = |id: ord::InscriptionId, pool: &mut Pool| -> String {
+      if let Some((l, _)) = pool.ids.iter().find(|(_, v)| **v == id) {
+        return l.clone();
+      }
+      n_insc += 1;
+      let l = format!("i{n_insc}");
+      pool.ids.insert(l.clone(), id);
+      l
+    };
+    let mut cardinals = 0;
+    for (o, v) in &utxos {
+      let ids = self.w.index.get_inscriptions_for_output(*o)?.unwrap_or_default();
+      let runes = !self.balances(*o)?.is_empty();
+      if ids.is_empty() && !runes {
+        if cardinals < 2 && v.to_sat() >= BTC {
+          cardinals += 1;
+          pool.outs.push((format!("wc{cardinals}"), *o, v.to_sat(), true, vec![], false));
+        }
+        continue;
+      }
+      let labels: Vec<String> = ids.iter().map(|i| label_of(*i, &mut pool)).collect();
+      let name = if *o == wx {
+        "wX".to_string()
+      } else if *o == wy {
+        "wY".to_string()
+      } else if *o == wxy {
+        "wXY".to_string()
+      } else if !labels.is_empty() && runes {
+        "wXr".to_string()
+      } else {
+        format!("wr{}", pool.outs.len())
+      };
+      pool.outs.push((name, *o, v.to_sat(), true, labels, runes));
+    }
+    for (k, val) in [(0u32, 2 * BTC), (1, BTC), (2, BTC / 2)] {
+      pool.outs.push((format!("f{}", k + 1), OutPoint { txid: ftx, vout: k }, val, false, vec![], false));
+    }
+    Ok(pool)
+  }
+
+  fn offer_case(&mut self, pool: &Pool, n: usize) -> Result<()> {
+    // start from a well-formed offer for wX and damage it
+    let find = |name: &str| pool.outs.iter().position(|o| o.0 == name).unwrap();
+    let seller = if self.rng.gen_bool(0.5) {
+      find("wX")
+    } else {
+      let cands: Vec<usize> = (0..pool.outs.len()).filter(|i| pool.outs[*i].3).collect();
+      cands[self.rng.gen_range(0..cands.len())]
+    };
+    let mut ins: Vec<(usize, &str)> = vec![(find("f1"), "std"), (seller, "none")];
+    let mut claim_from = seller;
+    let mut price: i64 = 150_000;
+    let mut named: i64 = price;
+    let mutations = match self.rng.gen_range(0..20) {
+      0..=2 => 0,
+      3..=9 => 1,
+      10..=16 => 2,
+      _ => 3,
+    };
+    for _ in 0..mutations {
+      match self.rng.gen_range(0..13) {
+        11 | 12 => {
+          // a buyer signature the node will not preserve
+          if let Some(k) = ins.iter().position(|x| !pool.outs[x.0].3) {
+            ins[k].1 = "odd";
+          }
+        }
+        0 => {
+          // the seller input is a different wallet output
+          let cands: Vec<usize> = (0..pool.outs.len()).filter(|i| pool.outs[*i].3 && !ins.iter().any(|x| x.0 == *i)).collect();
+          let k = cands[self.rng.gen_range(0..cands.len())];
+          let pos = ins.iter().position(|x| pool.outs[x.0].3).unwrap_or(0);
+          ins[pos].0 = k;
+          if self.rng.gen_bool(0.5) {
+            claim_from = k;
+          }
+        }
+        1 => {
+          // one more wallet input
+          let cands: Vec<usize> = (0..pool.outs.len()).filter(|i| pool.outs[*i].3 && !ins.iter().any(|x| x.0 == *i)).collect();
+          let k = cands[self.rng.gen_range(0..cands.len())];
+          let sig = ["none", "std"][self.rng.gen_range(0..2)];
+          ins.push((k, sig));
+        }
+        2 => {
+          // one more foreign input
+          let cands: Vec<usize> = (0..pool.outs.len()).filter(|i| !pool.outs[*i].3 && !ins.iter().any(|x| x.0 == *i)).collect();
+          if !cands.is_empty() {
+            let k = cands[self.rng.gen_range(0..cands.len())];
+            let sig = ["none", "std", "std", "odd"][self.rng.gen_range(0..4)];
+            ins.push((k, sig));
+          }
+        }
+        3 => {
+          let k = self.rng.gen_range(0..ins.len());
+          ins[k].1 = ["none", "std", "odd"][self.rng.gen_range(0..3)];
+        }
+        4 => named = price + [-1i64, 1, 1000, -150_000][self.rng.gen_range(0..4)],
+        5 => price += [-1i64, 1, 20_000][self.rng.gen_range(0..3)],
+        6 => ins.retain(|x| !pool.outs[x.0].3),
+        7 => ins.reverse(),
+        8 => {
+          // name an inscription that is elsewhere
+          let others: Vec<usize> = (0..pool.outs.len()).filter(|i| !pool.outs[*i].4.is_empty()).collect();
+          claim_from = others[self.rng.gen_range(0..others.len())];
+        }
+        9 => ins.retain(|x| pool.outs[x.0].3),
+        _ => {
+          let k = self.rng.gen_range(0..ins.len());
+          ins.swap(0, k);
+        }
+      }
+    }
+    if ins.is_empty() {
+      ins.push((find("f2"), "std"));
+    }
+    let claim_labels = &pool.outs[claim_from].4;
+    let claim = if claim_labels.is_empty() { pool.ids.keys().next().unwrap().clone() } else { claim_labels[self.rng.gen_range(0..claim_labels.len())].clone() };
+    // outputs: the seller's sats go to the buyer, the price to the wallet, the rest back to the buyer
+    let wallet_in: i64 = ins.iter().filter(|x| pool.outs[x.0].3).map(|x| pool.outs[x.0].2 as i64).sum();
+    let total_in: i64 = ins.iter().map(|x| pool.outs[x.0].2 as i64).sum();
+    let to_wallet = (wallet_in + price).max(600);
+    let dest = self.recv_addr();
+    let mut outs = vec![self.pay(&dest, to_wallet as u64)];
+    let rest = total_in - to_wallet - 1000;
+    if rest > 600 {
+      outs.insert(0, self.pay(&self.foreign[4].clone(), rest as u64));
+    }
+    if total_in < to_wallet + 1000 {
+      // not fundable from these inputs: skip
+      return Ok(());
+    }
+    let tx = Transaction {
+      version: Version(2),
+      lock_time: LockTime::ZERO,
+      input: ins
+        .iter()
+        .map(|x| TxIn { previous_output: pool.outs[x.0].1, script_sig: ScriptBuf::new(), sequence: Sequence::MAX, witness: Witness::new() })
+        .collect(),
+      output: outs,
+    };
+    let mut psbt = bitcoin::Psbt::from_unsigned_tx(tx.clone())?;
+    for (k, x) in ins.iter().enumerate() {
+      psbt.inputs[k].final_script_witness = match x.1 {
+        "std" => Some(Witness::from_slice(&[&[0u8; 64]])),
+        "odd" => Some(Witness::from_slice(&[&[7u8; 64]])),
+        _ => None,
+      };
+    }
+    let b64 = base64::engine::general_purpose::STANDARD.encode(psbt.serialize());
+    let change = to_wallet - wallet_in;
+    self.w.core.state().mempool.clear();
+    self.w.core.state().locked.clear();
+    let args = vec!["wallet".to_string(), "offer".into(), "accept".into(), "--inscription".into(), pool.ids[&claim].to_string(), "--amount".into(),
+      format!("{named}sat"), "--psbt".into(), b64];
+    let argv: Vec<&str> = args.iter().map(|s| s.as_str()).collect();
+    let out = if named >= 0 { self.w.cli(&argv)? } else { return Ok(()) };
+    let mempool: Vec<Transaction> = self.w.core.state().mempool.clone();
+    self.w.core.state().mempool.clear();
+    let mut row = json!({"event": "Offer", "n": n, "tag": self.tag,
+      "ins": ins.iter().map(|x| { let o = &pool.outs[x.0]; json!({"name": o.0, "owner": if o.3 { "wallet" } else { "foreign" }, "insc": o.4, "runes": o.5, "sig": x.1}) }).collect::<Vec<_>>(),
+      "claim": claim, "changeEq": change == named, "change": change.to_string(), "named": named.to_string(),
+      "ok": out.ok, "panic": out.stderr.contains("panicked"),
+      "err": if out.ok { "".to_string() } else { out.stderr.lines().next().unwrap_or("").chars().take(140).collect::<String>() },
+      "ntx": mempool.len()});
+    if let Some(btx) = mempool.first() {
+      let same_tx = btx.compute_txid() == tx.compute_txid();
+      let kept: Vec<bool> = (0..ins.len())
+        .map(|k| match ins[k].1 {
+          "none" => true,
+          _ => same_tx && psbt.inputs[k].final_script_witness.as_ref() == Some(&btx.input[k].witness),
+        })
+        .collect();
+      let signed: Vec<bool> = (0..ins.len()).map(|k| same_tx && !btx.input[k].witness.is_empty()).collect();
+      row["tx"] = json!({"same": same_tx, "kept": kept, "signed": signed});
+    }
+    self.rows.push(row);
+    Ok(())
+  }
+}
+
+/// ordv wallet-offers --seed N --worlds W --cases K --out trace.ndjson
+pub fn offers_trace(seed: u64, worlds: usize, cases: usize, out: &str) -> Result<()> {
+  let mut all = Vec::new();
+  for wi in 0..worlds {
+    let s = seed.wrapping_mul(1000).wrapping_add(wi as u64);
+    let mut c = Ctx::new(s, &format!("seed={seed} world={wi}"))?;
+    let pool = c.offer_pool()?;
+    c.rows.push(json!({"event": "Pool", "tag": c.tag,
+      "outs": pool.outs.iter().map(|o| json!({"name": o.0, "wallet": o.3, "insc": o.4, "runes": o.5})).collect::<Vec<_>>()}));
+    for n in 0..cases {
+      c.offer_case(&pool, n)?;
+    }
+    c.w.handle.shutdown();
+    all.append(&mut c.rows);
+  }
+  crate::write_trace(out, &all)
+}
